@@ -519,7 +519,22 @@ func (g *gen) switchStmt(c gctx) string {
 	c2 := c
 	c2.brk = true
 	var sb strings.Builder
-	if g.chance(50) {
+	if g.chance(12) {
+		// constant cases over a boolean tag whose evaluation needs control flow of its own
+		// (&&, ||): the ConstantSwitch belongs at the end of the tag's last block
+		fmt.Fprintf(&sb, "switch %s {\n", g.pick(g.boolE(2)+" && "+g.boolE(1), g.boolE(1)+" || "+g.boolE(2), "!("+g.boolE(2)+")", "b1 := "+g.boolE(1)+"; b1 && "+g.boolE(1)))
+		hasFalse, hasDflt := g.chance(60), g.chance(40)
+		fmt.Fprintf(&sb, "case true:\n%s", g.body(c2))
+		if (hasFalse || hasDflt) && g.chance(30) {
+			sb.WriteString("fallthrough\n")
+		}
+		if hasFalse {
+			fmt.Fprintf(&sb, "case false:\n%s", g.body(c2))
+		}
+		if hasDflt {
+			fmt.Fprintf(&sb, "default:\n%s", g.body(c2))
+		}
+	} else if g.chance(50) {
 		// constant cases -> ConstantSwitch
 		fmt.Fprintf(&sb, "switch %s {\n", g.pick("x", "a&3", "len(s)", "v := x + 1; v"))
 		n := 1 + g.r.Intn(3)
